@@ -60,8 +60,21 @@ class C06(flow.Spec):
                     ops.append("E %d %d" % (lo, min(12, lo + rnd.randrange(0, 2))))
                 elif x < 0.95:
                     ops.append("A %d" % rnd.randrange(5, 8))
+                    if rnd.random() < 0.5:
+                        ops.append("C")
                 else:
                     ops.append("C")
+            # a second remote actor holds partial versions with the same numbers (and the same
+            # first seq) as the ones actor 5 completes, applies and clears
+            if rnd.random() < 0.6:
+                pos = rnd.randrange(0, len(ops) + 1)
+                for v in rnd.sample([5, 6, 7], rnd.randrange(1, 4)):
+                    e = rnd.randrange(0, 3)
+                    ops.insert(pos, "O %d 0 %d 3 %d %s" % (v, e, e + 1, " ".join(map(str, range(0, e + 1)))))
+                tags.add("second-actor-same-version-numbers")
+                # ... and actor 5 completes, applies and clears one of them
+                v = rnd.choice([5, 6, 7])
+                ops += ["D %d 0 1 3 2 0 1" % v, "D %d 2 3 3 2 2 3" % v, "A %d" % v, "C"]
             restart = 1 if i % 3 == 0 else 0
             if restart:
                 # end with a version that is fully buffered but not applied
@@ -139,6 +152,9 @@ class C06(flow.Spec):
                 ops.append(("E",)); i += 3
             elif t[i] == "A":
                 ops.append(("A",)); i += 2
+            elif t[i] == "O":
+                k = int(t[i + 5])
+                ops.append(("O",)); i += 6 + k
             else:
                 ops.append(("C",)); i += 1
         steps = impl_obs.split(" # ")
@@ -208,6 +224,12 @@ class C06(flow.Spec):
                     held_after = mx != -1 and v <= mx and v not in needed and v not in pcov
                     if not held_after and not lc <= pcov.get(v, set()):
                         return False
+        # (5) the second remote actor only ever received partial chunks: what a restart rebuilds
+        # for it is exactly what the live node holds, at every crash point
+        for st in snaps:
+            m6 = re.search(r" a6\[(.*?)\] live6\[(.*?)\]", st)
+            if m6 and m6.group(2) not in ("-", "") and m6.group(1) != m6.group(2):
+                return False
         rs = [s for s in steps if s.startswith("RESTART")]
         if case.strip().endswith(" 1"):
             if not rs or "failed" in rs[0] or "same_actor=1" not in rs[0]:
